@@ -32,15 +32,16 @@ def gen_C09(rng, tier):
     maxlen = 3 if tier == "quick" else 4
 
     PARAMS = ["", "int x", "in String s", "int x, int y", "in int[] v", "long x"]
+    BADPARAMS = ["int[] v", "out int x", "inout String s", "ParcelableHolder h", "in Nope n"]     # methods with errors of their own still count
 
-    def render(seq, consts_at=(), params=None):
+    def render(seq, consts_at=(), params=None, pre=None, oneway=False):
         ms = []
         for i, (n, c) in enumerate(seq):
             if i in consts_at:
                 ms.append(f"const int K{i}={i};" if i % 2 else f"const int {n}={i};")     # also a constant named like the method
             ps = params[i] if params else ""
-            ms.append(f"void {n}({ps})" + (f"={c}" if c is not None else "") + ";")
-        return iface(ms)
+            ms.append(f"{pre[i] if pre else 'void'} {n}({ps})" + (f"={c}" if c is not None else "") + ";")
+        return iface(ms, oneway=oneway)
     k = 0
     for L in range(1, maxlen + 1):
         for seq in itertools.product(alphabet, repeat=L):
@@ -58,6 +59,18 @@ def gen_C09(rng, tier):
         # "overloads": the same name with different parameter lists is still the same name
         params = [rng.choice(PARAMS) for _ in range(L)] if rng.random() < 0.5 else None
         cases.append(nm(f"r{i}", [("f", render(seq, consts, params))]))
+    # methods that carry an error of their own (bad argument, oneway with a result): every sequence of length <= 2 with each
+    # position spoiled in turn, plus random longer ones
+    for L in (2, 3):
+        for seq in itertools.product(alphabet, repeat=L):
+            if L == 3 and rng.random() > (0.1 if tier == "quick" else 1.0):
+                continue
+            for bad in range(L):
+                kind = (k + bad) % 3
+                params = [BADPARAMS[(k + j) % len(BADPARAMS)] if (j == bad and kind == 0) else "" for j in range(L)]
+                pre = ["oneway int" if (j == bad and kind == 1) else ("int" if kind == 2 and j == bad else "void") for j in range(L)]
+                cases.append(nm(f"bad{k}", [("f", render(seq, params=params, pre=pre, oneway=(kind == 2)))]))
+                k += 1
     # a constant named like a method in front of every sequence of length <= 2
     for L in (1, 2):
         for seq in itertools.product(alphabet, repeat=L):
